@@ -19,44 +19,107 @@ fn hex(c: u8) -> bool {
   c.is_ascii_digit() || (b'a'..=b'f').contains(&c) || (b'A'..=b'F').contains(&c)
 }
 
-/// reference: *( idchar / ":" / pct-encoded ), pct-encoded = "%" HEXDIG HEXDIG   (W3C DID core 3.1)
-fn ref_method_id(b: &[u8; 3]) -> bool {
-  let plain = |c: u8| c.is_ascii_alphanumeric() || c == b'.' || c == b'-' || c == b'_' || c == b':';
-  if b[0] == b'%' {
-    return hex(b[1]) && hex(b[2]);
+/// every character is an idchar or ":", every "%" starts a complete escape
+fn chars_ok(b: &[u8]) -> bool {
+  let n = b.len();
+  let mut i = 0;
+  while i < n {
+    let c = b[i];
+    if c == b'%' {
+      if i + 2 >= n || !hex(b[i + 1]) || !hex(b[i + 2]) {
+        return false;
+      }
+      i += 3;
+    } else if c == b':' || c.is_ascii_alphanumeric() || c == b'.' || c == b'-' || c == b'_' {
+      i += 1;
+    } else {
+      return false;
+    }
   }
-  if !plain(b[0]) {
-    return false;
-  }
-  if b[1] == b'%' {
-    return false; // "%" + one char left: cannot be a complete escape
-  }
-  plain(b[1]) && b[2] != b'%' && plain(b[2])
+  true
 }
 
-fn ascii3() -> [u8; 3] {
-  let b: [u8; 3] = [any(), any(), any()];
-  assume(b[0] < 128 && b[1] < 128 && b[2] < 128);
+/// reference: W3C DID core 3.1   method-specific-id = *( *idchar ":" ) 1*idchar ; idchar = ALPHA / DIGIT / "." / "-" / "_" / pct-encoded
+/// i.e. non-empty, made of idchar and ":", every "%" followed by two HEXDIG, and not ending in ":"
+fn ref_method_id(b: &[u8]) -> bool {
+  !b.is_empty() && chars_ok(b) && b[b.len() - 1] != b':'
+}
+
+/// region of the recorded finding `method-id-trailing-colon`: otherwise well-formed ids that end in ":"
+fn trailing_colon_region(b: &[u8]) -> bool {
+  !b.is_empty() && chars_ok(b) && b[b.len() - 1] == b':'
+}
+
+fn ascii<const N: usize>() -> [u8; N] {
+  let b: [u8; N] = any();
+  let mut i = 0;
+  while i < N {
+    assume(b[i] < 128);
+    i += 1;
+  }
   b
 }
 
-pub fn method_id_3() {
-  let b = ascii3();
+fn method_id<const N: usize>(known_region: bool) -> [u8; N] {
+  let b = ascii::<N>();
+  assume(trailing_colon_region(&b) == known_region);
   let s = core::str::from_utf8(&b).unwrap();
   assert_eq!(is_ok(CoreDID::valid_method_id(s)), ref_method_id(&b));
+  b
+}
+pub fn method_id_0() {
+  let _ = method_id::<0>(false);
+}
+pub fn method_id_1() {
+  let _ = method_id::<1>(false);
+}
+pub fn method_id_2() {
+  let _ = method_id::<2>(false);
+}
+pub fn method_id_3() {
+  let b = method_id::<3>(false);
   sym_cover!(b[0] == b'%' && hex(b[1]) && hex(b[2]), "complete escape");
   sym_cover!(b[1] == b'%', "truncated escape");
+  sym_cover!(b[2] == b':', "trailing colon after an invalid character");
 }
+pub fn method_id_colon_1() {
+  let _ = method_id::<1>(true);
+}
+pub fn method_id_colon_2() {
+  let _ = method_id::<2>(true);
+}
+pub fn method_id_colon_3() {
+  let _ = method_id::<3>(true);
+}
+proof!(c10_method_id_colon_1, unwind = 6, method_id_colon_1);
+proof!(c10_method_id_colon_2, unwind = 6, method_id_colon_2);
+proof!(c10_method_id_colon_3, unwind = 6, method_id_colon_3);
+proof!(c10_method_id_0, unwind = 6, method_id_0);
+proof!(c10_method_id_1, unwind = 6, method_id_1);
+proof!(c10_method_id_2, unwind = 6, method_id_2);
 proof!(c10_method_id_3, unwind = 6, method_id_3);
 
-pub fn method_name_3() {
-  let b = ascii3();
+fn method_name<const N: usize>() -> bool {
+  let b = ascii::<N>();
   let s = core::str::from_utf8(&b).unwrap();
-  let want = b.iter().all(|c| c.is_ascii_lowercase() || c.is_ascii_digit());
+  // method-name = 1*method-char ; method-char = %x61-7A / DIGIT
+  let want = N > 0 && b.iter().all(|c| c.is_ascii_lowercase() || c.is_ascii_digit());
   assert_eq!(is_ok(CoreDID::valid_method_name(s)), want);
+  want
+}
+pub fn method_name_0() {
+  let _ = method_name::<0>();
+}
+pub fn method_name_3() {
+  let want = method_name::<3>();
   sym_cover!(want, "accepted name");
 }
+proof!(c10_method_name_0, unwind = 6, method_name_0);
 proof!(c10_method_name_3, unwind = 6, method_name_3);
+
+fn ascii3() -> [u8; 3] {
+  ascii::<3>()
+}
 
 pub fn twin_must_fail() {
   let b = ascii3();
@@ -65,109 +128,15 @@ pub fn twin_must_fail() {
 }
 proof!(c10_twin_must_fail, unwind = 6, twin_must_fail);
 
-// ---- the whole parser (third-party did_url_parser + CoreDID::check_validity) on "did:a:" + N symbolic ASCII bytes ----
-
-fn idchar(c: u8) -> bool {
-  c.is_ascii_alphanumeric() || c == b'.' || c == b'-' || c == b'_'
-}
-
-/// reference: W3C DID core 3.1  method-specific-id = *( *idchar ":" ) 1*idchar ; idchar includes pct-encoded
-fn ref_msid(b: &[u8]) -> bool {
-  let n = b.len();
-  if n == 0 {
-    return false;
-  }
-  let mut i = 0;
-  let mut last_colon = false;
-  while i < n {
-    if b[i] == b'%' {
-      if i + 2 >= n || !hex(b[i + 1]) || !hex(b[i + 2]) {
-        return false;
-      }
-      i += 3;
-      last_colon = false;
-    } else if b[i] == b':' {
-      i += 1;
-      last_colon = true;
-    } else if idchar(b[i]) {
-      i += 1;
-      last_colon = false;
-    } else {
-      return false;
-    }
-  }
-  !last_colon
-}
-
-/// the known third-party overrun: a complete escape as the last three bytes of the input
-fn ends_with_escape(b: &[u8]) -> bool {
-  let n = b.len();
-  n >= 3 && b[n - 3] == b'%' && hex(b[n - 2]) && hex(b[n - 1])
-}
-
-fn parse_tail<const N: usize>(known_region: bool) {
-  let t: [u8; N] = any();
-  let mut buf = [0u8; 16];
-  buf[..6].copy_from_slice(b"did:a:");
-  let mut i = 0;
-  while i < N {
-    assume(t[i] < 128 && t[i] > 32 && t[i] != 127); // printable ASCII: leading/trailing blanks are trimmed by the parser (C10 battery covers them)
-    buf[6 + i] = t[i];
-    i += 1;
-  }
-  assume(ends_with_escape(&t) == known_region);
-  let s = core::str::from_utf8(&buf[..6 + N]).unwrap();
-  let want = ref_msid(&t);
-  match CoreDID::parse(s) {
-    Ok(d) => {
-      assert!(want, "accepted a method-specific id outside the W3C ABNF");
-      assert!(d.as_str().len() == 6 + N, "string form differs from the input");
-      let id = d.method_id().as_bytes();
-      assert!(id.len() == N, "method-specific id is not the text after the second colon");
-      sym_cover!(true, "accepted");
-      core::mem::forget(d);
-    }
-    Err(e) => {
-      assert!(!want, "rejected a method-specific id inside the W3C ABNF");
-      sym_cover!(true, "rejected");
-      core::mem::forget(e);
-    }
-  }
-}
-
-pub fn parse_tail_1() {
-  parse_tail::<1>(false)
-}
-pub fn parse_tail_2() {
-  parse_tail::<2>(false)
-}
-pub fn parse_tail_3() {
-  parse_tail::<3>(false)
-}
-pub fn parse_tail_4() {
-  parse_tail::<4>(false)
-}
-pub fn parse_tail_3_escape() {
-  parse_tail::<3>(true)
-}
-pub fn parse_tail_4_escape() {
-  parse_tail::<4>(true)
-}
-proof!(c10_parse_tail_1, unwind = 12, parse_tail_1);
-proof!(c10_parse_tail_2, unwind = 12, parse_tail_2);
-proof!(c10_parse_tail_3, unwind = 12, parse_tail_3);
-proof!(c10_parse_tail_4, unwind = 12, parse_tail_4);
-proof!(c10_parse_tail_3_escape, unwind = 12, parse_tail_3_escape);
-proof!(c10_parse_tail_4_escape, unwind = 12, parse_tail_4_escape);
-
 pub const BODIES: &[(&str, fn())] = &[
+  ("c10_method_id_0", method_id_0),
+  ("c10_method_id_1", method_id_1),
+  ("c10_method_id_2", method_id_2),
   ("c10_method_id_3", method_id_3),
+  ("c10_method_id_colon_1", method_id_colon_1),
+  ("c10_method_id_colon_2", method_id_colon_2),
+  ("c10_method_id_colon_3", method_id_colon_3),
+  ("c10_method_name_0", method_name_0),
   ("c10_method_name_3", method_name_3),
   ("c10_twin_must_fail", twin_must_fail),
-  ("c10_parse_tail_1", parse_tail_1),
-  ("c10_parse_tail_2", parse_tail_2),
-  ("c10_parse_tail_3", parse_tail_3),
-  ("c10_parse_tail_4", parse_tail_4),
-  ("c10_parse_tail_3_escape", parse_tail_3_escape),
-  ("c10_parse_tail_4_escape", parse_tail_4_escape),
 ];
